@@ -55,6 +55,7 @@ import json
 import os
 import pickle
 import time
+import sys
 import traceback
 import zoneinfo
 
@@ -106,7 +107,7 @@ class VDT(dt.datetime):
 
 def setup(opts):
     # (not `run.datetime = VDT`: the name may be bound to the datetime MODULE in another spelling of the imports)
-    patchall.patch_attr(dt, "datetime", VDT)   # wherever else the package reads the clock: the class under any name,
+    patchall.patch_attr(dt, "datetime", VDT, later_imports=True)   # wherever else the package reads the clock: the class under any name,
     #                                        or the datetime module itself under any name (import datetime as dt)
 
 
@@ -323,7 +324,13 @@ def derive0(t, how, upd):
     if how == "copy.deepcopy":
         n = copy.deepcopy(t)
     elif how == "pickle":
-        n = pickle.loads(pickle.dumps(t))
+        # (the driver's own round trip of a schedule object: pickle names classes through sys.modules, where the clock stand-in
+        # answers for `datetime` while later imports are redirected - patchall.patch_attr(later_imports=True))
+        shim_mod, sys.modules["datetime"] = sys.modules["datetime"], dt
+        try:
+            n = pickle.loads(pickle.dumps(t))
+        finally:
+            sys.modules["datetime"] = shim_mod
     else:
         n = copy.copy(t)
     for f, v in (upd or {}).items():
